@@ -32,36 +32,36 @@ func RepoRoot() string {
 
 // Short names used in rule tables.
 var pkgAlias = map[string]string{
-	"resolve":       V2Prefix + "pkg/engine/resolve",
-	"plan":          V2Prefix + "pkg/engine/plan",
-	"postprocess":   V2Prefix + "pkg/engine/postprocess",
-	"gqlds":         V2Prefix + "pkg/engine/datasource/graphql_datasource",
-	"grpcds":        V2Prefix + "pkg/engine/datasource/grpc_datasource",
-	"subclient":     V2Prefix + "pkg/engine/datasource/graphql_datasource/subscriptionclient",
-	"subtransport":  V2Prefix + "pkg/engine/datasource/graphql_datasource/subscriptionclient/transport",
-	"subprotocol":   V2Prefix + "pkg/engine/datasource/graphql_datasource/subscriptionclient/protocol",
-	"subcommon":     V2Prefix + "pkg/engine/datasource/graphql_datasource/subscriptionclient/common",
-	"httpclient":    V2Prefix + "pkg/engine/datasource/httpclient",
-	"introspection": V2Prefix + "pkg/introspection",
-	"introspds":     V2Prefix + "pkg/engine/datasource/introspection_datasource",
-	"ast":           V2Prefix + "pkg/ast",
-	"astparser":     V2Prefix + "pkg/astparser",
-	"astprinter":    V2Prefix + "pkg/astprinter",
-	"astvisitor":    V2Prefix + "pkg/astvisitor",
-	"astnorm":       V2Prefix + "pkg/astnormalization",
-	"astvalidation": V2Prefix + "pkg/astvalidation",
-	"astminify":     V2Prefix + "pkg/astminify",
-	"lexer":         V2Prefix + "pkg/lexer",
-	"keyword":       V2Prefix + "pkg/lexer/keyword",
-	"runes":         V2Prefix + "pkg/lexer/runes",
+	"resolve":        V2Prefix + "pkg/engine/resolve",
+	"plan":           V2Prefix + "pkg/engine/plan",
+	"postprocess":    V2Prefix + "pkg/engine/postprocess",
+	"gqlds":          V2Prefix + "pkg/engine/datasource/graphql_datasource",
+	"grpcds":         V2Prefix + "pkg/engine/datasource/grpc_datasource",
+	"subclient":      V2Prefix + "pkg/engine/datasource/graphql_datasource/subscriptionclient",
+	"subtransport":   V2Prefix + "pkg/engine/datasource/graphql_datasource/subscriptionclient/transport",
+	"subprotocol":    V2Prefix + "pkg/engine/datasource/graphql_datasource/subscriptionclient/protocol",
+	"subcommon":      V2Prefix + "pkg/engine/datasource/graphql_datasource/subscriptionclient/common",
+	"httpclient":     V2Prefix + "pkg/engine/datasource/httpclient",
+	"introspection":  V2Prefix + "pkg/introspection",
+	"introspds":      V2Prefix + "pkg/engine/datasource/introspection_datasource",
+	"ast":            V2Prefix + "pkg/ast",
+	"astparser":      V2Prefix + "pkg/astparser",
+	"astprinter":     V2Prefix + "pkg/astprinter",
+	"astvisitor":     V2Prefix + "pkg/astvisitor",
+	"astnorm":        V2Prefix + "pkg/astnormalization",
+	"astvalidation":  V2Prefix + "pkg/astvalidation",
+	"astminify":      V2Prefix + "pkg/astminify",
+	"lexer":          V2Prefix + "pkg/lexer",
+	"keyword":        V2Prefix + "pkg/lexer/keyword",
+	"runes":          V2Prefix + "pkg/lexer/runes",
 	"varsvalidation": V2Prefix + "pkg/variablesvalidation",
-	"caching":       V2Prefix + "pkg/caching",
-	"cachectl":      V2Prefix + "pkg/engine/cache",
-	"opreport":      V2Prefix + "pkg/operationreport",
-	"engine":        ExecPrefix + "engine",
-	"graphql":       ExecPrefix + "graphql",
-	"subscription":  ExecPrefix + "subscription",
-	"websocket":     ExecPrefix + "subscription/websocket",
+	"caching":        V2Prefix + "pkg/caching",
+	"cachectl":       V2Prefix + "pkg/engine/cache",
+	"opreport":       V2Prefix + "pkg/operationreport",
+	"engine":         ExecPrefix + "engine",
+	"graphql":        ExecPrefix + "graphql",
+	"subscription":   ExecPrefix + "subscription",
+	"websocket":      ExecPrefix + "subscription/websocket",
 }
 
 // PkgPath expands an alias to an import path (or returns its argument).
